@@ -54,6 +54,12 @@ CLAIMED = {
  "C10": dict(cat="fault_enumeration", technique="solver-driven enumeration of crash points / structural faults of the cache document through the real scan_command over the in-memory FS, with a follow-up scan on the state left behind",
              text="Every character offset of the cache documents of three report shapes (pretty and compact), a set of non-JSON texts, every JSON path deleted or retyped, and all cache-directory states; quick skips alternate offset windows of the largest document, thorough is exhaustive.",
              ref="DESIGN.md 3/C10"),
+ "C11": dict(cat="other", technique="z3 regex equivalence (unbounded path strings) between every regex compiled by the real generate_exclude_spec and a reference regex of its gitignore class; real scan_path over an in-memory FS for solver-chosen trees x configurations x root forms",
+             text="Exclusion semantics are decided for paths of any length by the solver; composition (hidden pruning, relative keys, language choice, no analysis of non-qualifying files) is decided for every member of a pool-based tree family (14x14x13 + top-level variants) under 4 exclusion configurations and 6 ways of naming the root.",
+             ref="DESIGN.md 3/C11"),
+ "C12": dict(cat="other", technique="real check_command vs real scan_path over one in-memory tree for solver-chosen members x 6 ways of reaching the file x exclusion configurations; decoding agreement on symbolic bytes (CrossHair)",
+             text="Bounded by the tree pool; for every member the listing, the skip rules and the exit status of check are compared with what scan stores for the same file. One known finding (directory argument under a dot-directory) is listed and assumed away.",
+             ref="DESIGN.md 3/C12"),
 }
 NA = {}
 def main():
